@@ -4,7 +4,7 @@
    finishes") is refuted in the stated configuration class by the known findings (hang with an ordered
    standalone buffer, LIFO deadlock with early transport disabled) and otherwise decided by exploration. *)
 From Coq Require Import List ZArith Bool.
-From JSL Require Import Base.Res Base.ListX SM.Types SM.Util SM.Handler SM.Step SM.Inv SMP.Offers SM.ExampleDeadlock SM.ExampleUnready SM.Events SM.ExampleHang SM.Middleware SMP.Reflect Props.C05 Gen.Kernels Gen.KernelsEq SMP.StepInv SMP.LiftProv SMP.ProvBatch SMP.OffersValid SMP.Clock SMP.EventsRun.
+From JSL Require Import Base.Res Base.ListX SM.Types SM.Util SM.Handler SM.Step SM.Inv SMP.Offers SM.ExampleDeadlock SM.ExampleUnready SM.Events SM.ExampleHang SM.Middleware SMP.Reflect Props.C05 Gen.Kernels Gen.KernelsEq SMP.StepInv SMP.LiftProv SMP.ProvBatch SMP.OffersValid SMP.Clock SMP.EventsRun SMP.ReadyOffer.
 Import ListNotations.
 
 Theorem C11_ready_only :
@@ -186,4 +186,16 @@ Theorem C11_dispatch_clause_holds_up_to_readiness_along_every_run :
     reach sigma i fuel x0 joker0 ta r m -> mw_step sigma i fuel r m a = MOk r' m' lg -> chain_events i (r_x r) lg.
 Proof. intros sigma i fuel x0 joker0 ta r m a r' m' lg Hnn. apply run_events_ok; auto. Qed.
 Print Assumptions C11_dispatch_clause_holds_up_to_readiness_along_every_run.
+
+(* ... and the part of that sentence that is TRUE, without any hypothesis on the run: every dispatch OFFERED to the agent names a job that is ready for
+   pickup (or early transport is allowed) in the state the offer is presented in - which is the state an accepted offer is applied in (mw_step hands
+   [tr] to state.step, which applies it first, to r_x r). The offers of every reachable result are offers computed from its own state
+   (reach_offers: fresh after a step, a tail of them after a decline that keeps the state). So the refuted case is confined to dispatches the
+   simulator applies by itself (zero travel time) after other transitions of the same batch. SMP/ReadyOffer.v *)
+Theorem C11_offered_dispatches_name_ready_jobs :
+  forall (sigma : oracle) (i : inst) (fuel : nat) (x0 : state) (joker0 : Z) (ta : bool) (r : result) (m : mw) (tr : transition),
+    reach sigma i fuel x0 joker0 ta r m -> In tr (r_offers r) -> tr_new tr = NT TWorking ->
+    dispatch_ready_conj i (r_x r) tr = true.
+Proof. intros. eapply offered_dispatches_are_ready; eauto. Qed.
+Print Assumptions C11_offered_dispatches_name_ready_jobs.
 
